@@ -116,8 +116,5 @@ theorem gen_applyOverbound (tol sel bounded res o : ℝ) :
   refine ⟨?_, rfl⟩
   unfold applyOverbound SynapseSitesR.synparam_overbound
   simp only [realSOps, realOps, decide_eq_true_eq]
-  by_cases h : |sel - bounded| ≤ tol
-  · rw [if_pos h, if_pos h]
-  · rw [if_neg h, if_neg h]
 
 end InfernoVerif.Synapse.Glue
